@@ -11,6 +11,20 @@ import (
 
 func init() { evaluators["C08"] = evalC08 }
 
+// anyOnce: a run-once function may legitimately hand a later call what it
+// computed from an earlier call's values.
+func anyOnce(sc *engine.Scenario) bool {
+	if sc.Target.Once {
+		return true
+	}
+	for i := range sc.Convs {
+		if sc.Convs[i].Once {
+			return true
+		}
+	}
+	return false
+}
+
 // filterTypes: the types the filter algebra is exercised on -- the token
 // universe plus unnamed / defined pairs with the same underlying type (Go
 // assignability is wider than FilterType's documented "same type, or
@@ -165,6 +179,7 @@ func evalC08(c *engine.Case) engine.Verdict {
 		n0 := w.NumEvents()
 		w.DeficientFirst = true
 		w.RepeatOnFailure = true
+		w.AliasProbe = true
 		rf, rerr, rpanic, fresh, o := w.RedefineCall(target, args)
 		if fc := w.FirstComplete; fc != nil && v.Fail == "" {
 			// the first complete call ended with a body error
@@ -322,6 +337,31 @@ func evalC08(c *engine.Case) engine.Verdict {
 		for i := range o.Outs {
 			if o.Outs[i].Tok != tev.Outs[i] {
 				v.Failf("result %d of the redefined function is #%d, the original body returned #%d", i, o.Outs[i].Tok, tev.Outs[i])
+			}
+		}
+		// The option list Redefine was given was a prefix of a longer list
+		// the caller had prepared for a later, direct call of the original
+		// function (own values #7xx for the same inputs). That call must see
+		// the caller's values, none of the values (#5xx) that were only ever
+		// handed to the redefined function.
+		if v.Fail == "" && w.Later != nil && !anyOnce(sc) {
+			lo := w.Call(target, w.Later)
+			if lo.Panic != "" {
+				v.Failf("direct call of the original function after the redefined one panicked: %s", lo.Panic)
+				break
+			}
+			for _, ev := range lo.Events {
+				for _, a := range ev.Args {
+					if a.Tok > 500 && a.Tok < 700 {
+						v.Failf("a direct call of the original function with its own option list (values #%d..) injected #%d, a value that was only ever passed to the redefined function: the list Redefine was given a prefix of has been overwritten", 701, a.Tok)
+					}
+				}
+			}
+			if msg := engine.CheckBindings(w, lo.Events); msg != "" && v.Fail == "" {
+				v.Failf("direct call after the redefined one: %s", msg)
+			}
+			if rep == 0 {
+				v.Class("direct-call-over-shared-option-list")
 			}
 		}
 	}
